@@ -890,16 +890,27 @@ theorem wire_token_base (t r : Nat) : stateTokenBase (stateTokenFull t r) = stat
     Nat.mod_mod_of_dvd _ (by decide)
   rw [h1, Nat.add_mul_mod_self_right, Nat.mod_mod]
 
-/-- "handlers only ever see the application's own token", NACK handler: whenever the abandoned PDU's token belongs to a
+/-- fix f4071ae: a token without a retry count (no libcoap-generated token has one: the counter starts at 1) is the
+application's own and is left alone, whatever state tokens the session holds -/
+theorem application_token_left_alone (crcvs xmits : List TokEnt) (isReq : Bool) (tok : Bytes)
+    (h : decodeVar8 tok / 2 ^ 44 = 0) : checkUpdateToken crcvs xmits isReq tok = tok := by
+  unfold checkUpdateToken
+  dsimp only
+  rw [if_pos h]
+
+/-- `hwire` below: the abandoned PDU carries a token libcoap generated (retry count ≥ 1 in its upper 20 bits).
+"handlers only ever see the application's own token", NACK handler: whenever the abandoned PDU's token belongs to a
 transfer the session still holds — as the application token or as any wire token of an lg_crcv, or (requests) of an
 lg_xmit, at ANY position of the lists — the PDU shown to the handler carries an application token of one of the
 session's transfers.  No hypothesis on the tokens. -/
 theorem nack_shows_application_token (crcvs xmits : List TokEnt) (isReq : Bool) (tok : Bytes)
+    (hwire : decodeVar8 tok / 2 ^ 44 ≠ 0)
     (h : (∃ e, e ∈ crcvs ∧ (tok = e.appTok ∨ stateTokenBase (decodeVar8 tok) = stateTokenBase e.state)) ∨
          (isReq = true ∧ ∃ e, e ∈ xmits ∧ (tok = e.appTok ∨ stateTokenBase (decodeVar8 tok) = stateTokenBase e.state))) :
     ∃ e, e ∈ crcvs ++ xmits ∧ checkUpdateToken crcvs xmits isReq tok = e.appTok := by
   unfold checkUpdateToken
   dsimp only
+  rw [if_neg hwire]
   cases hc : tokScan (stateTokenBase (decodeVar8 tok)) tok crcvs with
   | some t =>
     obtain ⟨e, he, ht, _⟩ := tokScan_some _ _ _ _ hc
@@ -930,6 +941,7 @@ handler is shown `e`'s application token. -/
 theorem nack_token_of_its_transfer (crcvs xmits : List TokEnt) (isReq : Bool) (tok : Bytes) (e : TokEnt)
     (he : e ∈ crcvs ∨ (isReq = true ∧ e ∈ xmits))
     (hm : stateTokenBase (decodeVar8 tok) = stateTokenBase e.state)
+    (hwire : decodeVar8 tok / 2 ^ 44 ≠ 0)
     (hfun : ∀ e1 e2, e1 ∈ crcvs ++ xmits → e2 ∈ crcvs ++ xmits →
       stateTokenBase e1.state = stateTokenBase e2.state → e1.appTok = e2.appTok)
     (hnot : ∀ e', e' ∈ crcvs ++ xmits → tok ≠ e'.appTok) :
@@ -940,6 +952,7 @@ theorem nack_token_of_its_transfer (crcvs xmits : List TokEnt) (isReq : Bool) (t
     · simp [he]
   unfold checkUpdateToken
   dsimp only
+  rw [if_neg hwire]
   cases hc : tokScan (stateTokenBase (decodeVar8 tok)) tok crcvs with
   | some t =>
     obtain ⟨e', he', ht, hw⟩ := tokScan_some _ _ _ _ hc
